@@ -24,6 +24,7 @@ from mapproxy.util.geom import (
     load_polygon_lines,
     transform_geometry,
     bbox_polygon,
+    flatten_to_polygons,
     EmptyGeometryError,
 )
 from mapproxy.srs import SRS
@@ -63,6 +64,25 @@ def load_limited_to(limited_to):
                 geom = shapely.geometry.MultiPolygon(polygons)
 
     return GeomCoverage(geom, srs, clip=True)
+
+
+def load_combined_limited_to(*limited_tos):
+    """
+    Load all given ``limited_to`` dictionaries and return a clipping coverage for
+    the area that is permitted by all of them. ``None`` entries are ignored.
+    Returns ``None`` if there is no ``limited_to`` at all.
+    """
+    coverages = [load_limited_to(limited_to) for limited_to in limited_tos if limited_to]
+    if not coverages:
+        return None
+    coverage = coverages[0]
+    for other in coverages[1:]:
+        other = other.transform_to(coverage.srs)
+        geom = coverage.geom.intersection(other.geom)
+        # keep the areas only, the intersection also contains lines and points where the geometries touch
+        polygons = [p for p in flatten_to_polygons(geom) if not p.is_empty]
+        coverage = GeomCoverage(shapely.geometry.MultiPolygon(polygons), coverage.srs, clip=True)
+    return coverage
 
 
 class MultiCoverage(object):
